@@ -19,6 +19,24 @@ fn main() {
         std::process::exit(2);
     }
     engine::silence_panics();
+    if args[1] == "tzref-dump" {
+        // reference-model offsets for the corpus, for the CPython cross-check (tools/tz_crosscheck.py)
+        use std::io::Write;
+        let mut out = std::io::BufWriter::new(std::fs::File::create(&args[2]).expect("create dump"));
+        let mut n = 0u64;
+        for (name, bytes) in props::c18::load_corpus() {
+            if let Some(z) = refmodel::tzif::read_tzif(&bytes) {
+                for t in props::c18::probes(&z, false) {
+                    if let Some(o) = refmodel::tzif::offset_at(&z, t) {
+                        writeln!(out, "{}\t{}\t{}", name, t, o).unwrap();
+                        n += 1;
+                    }
+                }
+            }
+        }
+        println!("dumped {} lookups", n);
+        std::process::exit(0);
+    }
     if args[1] == "replay" {
         let text = std::fs::read_to_string(&args[2]).expect("read replay file");
         let v: serde_json::Value = serde_json::from_str(&text).expect("parse replay file");
